@@ -3,6 +3,7 @@ package core
 import (
 	"fmt"
 	"runtime"
+	"strings"
 	"sync"
 )
 
@@ -150,8 +151,18 @@ func (c *Ctx) recordBFS(id string, v Verdict, rerun func() Verdict) {
 	for i := 0; i < 5; i++ {
 		w, hung := withWatchdog(rerun, c.CaseTimeout)
 		if hung || w.OK != v.OK || w.Detail != v.Detail {
-			c.Broken("nondeterministic harness: history %s gave different verdicts on re-execution:\n first: %s\n again: %s", id, v.Detail, w.Detail)
-			return
+			if strings.Contains(v.Detail, "HARNESS") || strings.Contains(w.Detail, "HARNESS") {
+				c.Broken("harness problem: history %s gave different verdicts on re-execution:\n first: %s\n again: %s", id, v.Detail, w.Detail)
+				return
+			}
+			c.P.Counters["violations_not_reproducible_in_isolation"]++
+			again := "passes"
+			if !w.OK {
+				again = w.Detail
+			}
+			v.Detail = unstableNote + v.Detail + "\n on re-execution: " + again
+			v.KF = ""
+			break
 		}
 	}
 	if v.KF != "" && c.KFListed[v.KF] {
